@@ -82,7 +82,7 @@ class C02(Prop):
         "the engine trace comes from wrapping lasio.reader.read_data_section_iterative_{numpy,normal}_engine from outside; "
         "if those names disappear the trace degrades to 'unavailable' and nothing is reported",
     ]
-    quick = {"runs": 6000, "wall": 40}
+    quick = {"runs": 25000, "wall": 60}
     thorough = {"runs": 300000, "wall": 900}
 
     def enumerated(self, tier):
